@@ -98,6 +98,7 @@ def gen(rng, tier, index):
         s_["how"] = gens.pick(rng, forms.CONFIGURE)  # the object replaced by its copy between two links of the chain
         s_["xform"] = gens.pick(rng, forms.PRESENT)
         s_["carry"] = gens.pick(rng, forms.CARRY)
+        s_["clobber"] = bool(rng.random() < 0.5)
     past = None
     if rng.random() < 0.3:  # the estimator objects were fitted before, on another cloud of the same shape
         past = rng.normal(size=X.shape) * unit * float(10.0 ** rng.uniform(-1, 1))
@@ -112,7 +113,7 @@ def _fit_voronoi(case, setting, j):
     kw["full_fraction"] = setting["full_fraction"]
     if "n_trial_calculation" in setting:
         kw["n_trial_calculation"] = setting["n_trial_calculation"]
-    spec = {"dir": "sample", "cls": "VoronoiFPS", "kw": kw, "how": setting.get("how", "ctor"), "xform": setting.get("xform", "C")}
+    spec = {"dir": "sample", "cls": "VoronoiFPS", "kw": kw, "how": setting.get("how", "ctor"), "xform": setting.get("xform", "C"), "clobber": setting.get("clobber", False)}
     if spec["how"] != "ctor":
         j.note("configured_not_by_constructor")
     if spec["xform"] != "C":
